@@ -1,10 +1,17 @@
 fn main() {
-    let db = rbx_reflection_database::get();
-    let c = &db.classes["BasePart"];
-    for n in ["Size","size","Color","Color3uint8","BrickColor","brickColor","Anchored"] {
-        let p = &c.properties[n];
-        println!("{} {:?} {:?} scriptability={:?} tags={:?}", n, p.data_type, p.kind, p.scriptability, p.tags);
+    let depth: usize = std::env::args().nth(1).unwrap().parse().unwrap();
+    let mut dom = rbx_dom_weak::WeakDom::new(rbx_dom_weak::InstanceBuilder::new("DataModel"));
+    let mut parent = dom.root_ref();
+    for _ in 0..depth {
+        parent = dom.insert(parent, rbx_dom_weak::InstanceBuilder::new("Folder").with_name("d"));
     }
-    let c = &db.classes["Instance"];
-    for n in ["Tags","Attributes","AttributesSerialize","Name"] { if let Some(p)=c.properties.get(n) { println!("{} {:?} {:?}", n, p.data_type, p.kind);} }
+    eprintln!("built"); let roots = dom.root().children().to_vec();
+    let mut v = Vec::new();
+    rbx_binary::to_writer(&mut v, &dom, &roots).unwrap();
+    eprintln!("written {} bytes", v.len());
+    let d = rbx_binary::from_reader(v.as_slice()).unwrap();
+    eprintln!("read {} instances", d.descendants().count());
+    if depth > 20000 { return; } let mut x = Vec::new();
+    rbx_xml::to_writer_default(&mut x, &dom, &roots).unwrap();
+    eprintln!("xml written {} bytes", x.len());
 }
